@@ -149,3 +149,570 @@ theorem lowerPlain_case (ρ : List Char → List Char) (hρ : CaseOnly ρ) :
 
 end Lower
 end Sqlgrep
+
+/-! ### whole statements: aggregates, HAVING, extraction -/
+
+namespace Sqlgrep
+
+mutual
+def Lower.XExpr.renameCalls (ρ : List Char → List Char) : Lower.XExpr → Lower.XExpr
+  | .plain e => .plain (e.renameCalls ρ)
+  | .hole => .hole
+  | .binop l o a b => .binop l o (a.renameCalls ρ) (b.renameCalls ρ)
+  | .boolop o a b => .boolop o (a.renameCalls ρ) (b.renameCalls ρ)
+  | .unop l o e => .unop l o (e.renameCalls ρ)
+  | .invert e => .invert (e.renameCalls ρ)
+  | .nullcmp n a b => .nullcmp n (a.renameCalls ρ) (b.renameCalls ρ)
+  | .index a i => .index (a.renameCalls ρ) (i.renameCalls ρ)
+  | .cast e t => .cast (e.renameCalls ρ) t
+  | .call l n args => .call l (ρ n) (Lower.XExpr.renameCallsList ρ args)
+def Lower.XExpr.renameCallsList (ρ : List Char → List Char) : List Lower.XExpr → List Lower.XExpr
+  | [] => []
+  | x :: xs => x.renameCalls ρ :: Lower.XExpr.renameCallsList ρ xs
+end
+
+def Lower.Extracted.rename (ρ : List Char → List Char) : Lower.Extracted → Lower.Extracted
+  | .column n => .column n
+  | .call n args d => .call (ρ n) (PExpr.renameCallsList ρ args) d
+
+namespace Lower
+
+theorem countAggregates_rename (ρ : List Char → List Char) (hρ : CaseOnly ρ) :
+    (∀ e, countAggregates (e.renameCalls ρ) = countAggregates e) ∧
+    (∀ es, countAggregatesList (PExpr.renameCallsList ρ es) = countAggregatesList es) ∧
+    (∀ cs, countAggregatesClauses (PExpr.renameCallsClauses ρ cs) = countAggregatesClauses cs) := by
+  have hn : ∀ n, isAggregateName (ρ n) = isAggregateName n := fun n => isAggregateName_case (hρ n)
+  apply PExpr.induct3
+  all_goals intros
+  all_goals (first | rw [PExpr.renameCalls] | rw [PExpr.renameCallsList] | rw [PExpr.renameCallsClauses])
+  all_goals (simp only [countAggregates, countAggregatesList, countAggregatesClauses, *])
+
+theorem holeOr_rename (ρ) (b : Bool) (x : XExpr) : (holeOr b x).renameCalls ρ = holeOr b (x.renameCalls ρ) := by
+  unfold holeOr; split <;> simp [XExpr.renameCalls]
+
+theorem firstSome_rename (ρ) (a b : Option Extracted) :
+    (firstSome a b).map (Extracted.rename ρ) = firstSome (a.map (Extracted.rename ρ)) (b.map (Extracted.rename ρ)) := by
+  unfold firstSome; cases a <;> simp
+
+/-- `extract_aggregate` commutes with the respelling -/
+theorem extractAggregate_rename (ρ : List Char → List Char) (hρ : CaseOnly ρ) :
+    (∀ e, extractAggregate (e.renameCalls ρ) =
+      ((extractAggregate e).1.map (Extracted.rename ρ), (extractAggregate e).2.1, (extractAggregate e).2.2.renameCalls ρ)) ∧
+    (∀ es acc, extractArgs (PExpr.renameCallsList ρ es) (acc.map (Extracted.rename ρ)) =
+      ((extractArgs es acc).1.map (Extracted.rename ρ), XExpr.renameCallsList ρ (extractArgs es acc).2)) ∧
+    (∀ _cs : List (PExpr × PExpr), True) := by
+  have hn : ∀ n, isAggregateName (ρ n) = isAggregateName n := fun n => isAggregateName_case (hρ n)
+  apply PExpr.induct3
+  case cnil => trivial
+  case ccons => intros; trivial
+  case nil => intro acc; simp [PExpr.renameCallsList, extractArgs, XExpr.renameCallsList]
+  case cons =>
+    intro x xs ihx ihxs acc
+    rw [PExpr.renameCallsList, extractArgs, extractArgs, ihx]
+    dsimp only
+    have := ihxs (if (extractAggregate x).1.isSome then (extractAggregate x).1 else acc)
+    have hcond : (Option.map (Extracted.rename ρ) (extractAggregate x).1).isSome = (extractAggregate x).1.isSome := by simp
+    have harg : (if (Option.map (Extracted.rename ρ) (extractAggregate x).1).isSome = true then Option.map (Extracted.rename ρ) (extractAggregate x).1 else Option.map (Extracted.rename ρ) acc)
+        = Option.map (Extracted.rename ρ) (if (extractAggregate x).1.isSome then (extractAggregate x).1 else acc) := by
+      rw [hcond]; split <;> rfl
+    rw [harg, this]
+    simp [XExpr.renameCallsList, holeOr_rename]
+  case call =>
+    intro l n args d ih
+    rw [PExpr.renameCalls, extractAggregate, extractAggregate, hn]
+    split
+    · simp [Extracted.rename, XExpr.renameCalls, PExpr.renameCalls]
+    · have := ih none
+      simp only [Option.map_none] at this
+      simp [this, XExpr.renameCalls]
+  all_goals intros
+  all_goals (rw [PExpr.renameCalls])
+  all_goals (first | rw [extractAggregate, extractAggregate] | rw [extractAggregate])
+  all_goals (simp_all [XExpr.renameCalls, Extracted.rename, holeOr_rename, firstSome_rename, PExpr.renameCalls])
+
+
+theorem mapErr_ok {α : Type} (f : CErr → CErr) (a : α) : (LRes.ok a).mapErr f = .ok a := rfl
+theorem mapErr_err {α : Type} (f : CErr → CErr) (e : CErr) : (LRes.err e : LRes α).mapErr f = .err (f e) := rfl
+theorem mapErr_panic {α : Type} (f : CErr → CErr) (s : String) : (LRes.panic s : LRes α).mapErr f = .panic s := rfl
+
+/-- errors the respelling cannot show in: everything but `UndefinedFunction` -/
+theorem rename_other (ρ) (loc : Loc) (k : CErrKind) (h : ∀ n, k ≠ .undefinedFunction n) : CErr.rename ρ ⟨loc, k⟩ = ⟨loc, k⟩ := by
+  unfold CErr.rename; cases k <;> simp_all
+
+theorem lowerX_case (ρ : List Char → List Char) (hρ : CaseOnly ρ) :
+    ∀ x, lowerX (XExpr.renameCalls ρ x) = (lowerX x).mapErr (CErr.rename ρ) := by
+  have hp := (lowerPlain_case ρ hρ).1
+  have hb := mapErr_binop ρ
+  have hu := mapErr_unop ρ
+  have hc := lowerCall_case ρ hρ
+  apply XExpr.rec (motive_1 := fun x => lowerX (XExpr.renameCalls ρ x) = (lowerX x).mapErr (CErr.rename ρ))
+    (motive_2 := fun xs => lowerXList (XExpr.renameCallsList ρ xs) = (lowerXList xs).mapErr (CErr.rename ρ))
+  case plain => intro e; rw [XExpr.renameCalls, lowerX, lowerX]; exact hp e
+  case hole => rw [XExpr.renameCalls, lowerX]; rfl
+  case binop =>
+    intro l o a b iha ihb
+    rw [XExpr.renameCalls, lowerX, lowerX, iha, ihb]
+    cases lowerX a <;> simp only [LRes.mapErr]
+    cases lowerX b <;> first | exact (hb _ _ _ _).symm | simp only [LRes.mapErr]
+  case boolop =>
+    intro o a b iha ihb
+    rw [XExpr.renameCalls, lowerX, lowerX, iha, ihb]
+    cases lowerX a <;> simp only [LRes.mapErr]
+    cases lowerX b <;> simp only [LRes.mapErr]
+  case unop =>
+    intro l o a iha
+    rw [XExpr.renameCalls, lowerX, lowerX, iha]
+    cases lowerX a <;> first | exact (hu _ _ _).symm | simp only [LRes.mapErr]
+  case invert =>
+    intro a iha
+    rw [XExpr.renameCalls, lowerX, lowerX, iha]
+    cases lowerX a <;> simp only [LRes.mapErr]
+  case nullcmp =>
+    intro n a b iha ihb
+    rw [XExpr.renameCalls, lowerX, lowerX, iha, ihb]
+    cases lowerX a <;> simp only [LRes.mapErr]
+    cases lowerX b <;> simp only [LRes.mapErr]
+  case index =>
+    intro a b iha ihb
+    rw [XExpr.renameCalls, lowerX, lowerX, iha, ihb]
+    cases lowerX a <;> simp only [LRes.mapErr]
+    cases lowerX b <;> simp only [LRes.mapErr]
+  case cast =>
+    intro a ty iha
+    rw [XExpr.renameCalls, lowerX, lowerX, iha]
+    cases lowerX a <;> simp only [LRes.mapErr]
+  case call =>
+    intro l n args ih
+    rw [XExpr.renameCalls, lowerX, lowerX, ih]
+    cases lowerXList args <;> first | exact hc _ _ _ | simp only [LRes.mapErr]
+  case nil => rw [XExpr.renameCallsList, lowerXList]; rfl
+  case cons =>
+    intro x xs ihx ihxs
+    rw [XExpr.renameCallsList, lowerXList, lowerXList, ihx, ihxs]
+    cases lowerX x <;> simp only [LRes.mapErr]
+    cases lowerXList xs <;> simp only [LRes.mapErr]
+
+theorem renameCallsList_length (ρ) : ∀ es : List PExpr, (PExpr.renameCallsList ρ es).length = es.length := by
+  intro es; induction es with
+  | nil => simp [PExpr.renameCallsList]
+  | cons x xs ih => simp [PExpr.renameCallsList, ih]
+
+theorem renameCalls_loc (ρ) (e : PExpr) : PExpr.loc (e.renameCalls ρ) = PExpr.loc e := by
+  cases e <;> simp [PExpr.renameCalls, PExpr.loc]
+
+/-- `transform_call_aggregate` on a respelled call with respelled arguments -/
+theorem lowerCallAggregate_rename (ρ : List Char → List Char) (hρ : CaseOnly ρ) (loc n args d i) :
+    lowerCallAggregate loc (ρ n) (PExpr.renameCallsList ρ args) d i
+      = (lowerCallAggregate loc n args d i).mapErr (CErr.rename ρ) := by
+  have hp := (lowerPlain_case ρ hρ).1
+  rw [lowerCallAggregate_case (hρ n)]
+  unfold lowerCallAggregate
+  dsimp only
+  by_cases h1 : str (lowerChars n) = "count"
+  · simp only [h1, if_true]
+    cases args with
+    | nil => simp [PExpr.renameCallsList, LRes.mapErr]
+    | cons a0 rest =>
+      cases rest with
+      | nil =>
+        simp only [PExpr.renameCallsList, List.isEmpty_cons, Bool.false_eq_true, if_false, List.length_singleton, if_true,
+          hp, renameCalls_loc]
+        cases lowerPlain a0 with
+        | ok e => cases e <;> simp [LRes.mapErr, CErr.rename]
+        | err e => simp [LRes.mapErr]
+        | panic s => simp [LRes.mapErr]
+      | cons a1 rest2 => simp [PExpr.renameCallsList, LRes.mapErr, CErr.rename]
+  · simp only [h1, if_false]
+    by_cases h2 : aggregateNames.contains (str (lowerChars n)) = true
+    · simp only [h2, if_true]
+      cases args with
+      | nil => simp [PExpr.renameCallsList, LRes.mapErr, CErr.rename]
+      | cons a0 rest =>
+        cases rest with
+        | nil =>
+          simp only [PExpr.renameCallsList, List.length_singleton, if_true, hp]
+          cases lowerPlain a0 with
+          | ok e => simp only [LRes.mapErr]; cases aggOfName1 (str (lowerChars n)) e <;> simp [LRes.mapErr, CErr.rename]
+          | err e => simp [LRes.mapErr]
+          | panic s => simp [LRes.mapErr]
+        | cons a1 rest2 =>
+          cases rest2 with
+          | nil =>
+            simp only [PExpr.renameCallsList, List.length_cons, List.length_nil, hp]
+            simp only [show (0 + 1 + 1 = 1) = False by simp, if_false, show (0 + 1 + 1 = 2) = True by simp, if_true]
+            cases lowerPlain a0 with
+            | ok e0 =>
+              cases lowerPlain a1 with
+              | ok e1 =>
+                simp only [LRes.mapErr]
+                by_cases hpct : str (lowerChars n) = "percentile"
+                · simp only [hpct, if_true]; cases e1 with
+                  | value v => cases v <;> simp [LRes.mapErr, CErr.rename]
+                  | _ => simp [LRes.mapErr, CErr.rename]
+                · simp only [hpct, if_false]
+                  by_cases hsa : str (lowerChars n) = "string_agg"
+                  · simp only [hsa, if_true]; cases e1 with
+                    | value v => cases v <;> simp [LRes.mapErr, CErr.rename]
+                    | _ => simp [LRes.mapErr, CErr.rename]
+                  · simp [hsa, LRes.mapErr, CErr.rename]
+              | err e => simp [LRes.mapErr]
+              | panic s => simp [LRes.mapErr]
+            | err e => simp [LRes.mapErr]
+            | panic s => simp [LRes.mapErr]
+          | cons a2 rest3 => simp [PExpr.renameCallsList, LRes.mapErr, CErr.rename]
+    · rw [if_neg h2, if_neg h2]; simp [LRes.mapErr, CErr.rename]
+
+
+theorem lowerAggregate_rename (ρ : List Char → List Char) (hρ : CaseOnly ρ) (tree : PExpr) (i : Nat) :
+    lowerAggregate (tree.renameCalls ρ) i = (lowerAggregate tree i).mapErr (CErr.rename ρ) := by
+  have hc := (countAggregates_rename ρ hρ).1 tree
+  have hx := (extractAggregate_rename ρ hρ).1 tree
+  have hp := (lowerPlain_case ρ hρ).1 tree
+  unfold lowerAggregate
+  simp only [hc, renameCalls_loc, hx]
+  by_cases h1 : countAggregates tree > 1
+  · simp [h1, LRes.mapErr, CErr.rename]
+  · simp only [h1, if_false]
+    by_cases h2 : countAggregates tree > 0
+    · simp only [h2, if_true]
+      cases hex : (extractAggregate tree).1 with
+      | none => simp [LRes.mapErr, CErr.rename]
+      | some x =>
+        cases x with
+        | column c => simp [Extracted.rename, LRes.mapErr, CErr.rename]
+        | call name args d =>
+          simp only [Option.map_some, Extracted.rename, lowerCallAggregate_rename ρ hρ, lowerX_case ρ hρ]
+          cases lowerCallAggregate (PExpr.loc tree) name args d i with
+          | ok r =>
+            simp only [LRes.mapErr]
+            cases (extractAggregate tree).2.1 with
+            | true => simp
+            | false => simp only [Bool.false_eq_true, if_false]; cases lowerX (extractAggregate tree).2.2 <;> simp [LRes.mapErr]
+          | err e => simp [LRes.mapErr]
+          | panic s => simp [LRes.mapErr]
+    · simp only [h2, if_false, hp]
+      cases lowerPlain tree <;> simp [LRes.mapErr]
+
+theorem lowerHaving_rename (ρ : List Char → List Char) (hρ : CaseOnly ρ) :
+    (∀ e st, lowerHaving (e.renameCalls ρ) st = (lowerHaving e st).mapErr (CErr.rename ρ)) ∧
+    (∀ es st, lowerHavingList (PExpr.renameCallsList ρ es) st = (lowerHavingList es st).mapErr (CErr.rename ρ)) ∧
+    (∀ cs st, lowerHavingClauses (PExpr.renameCallsClauses ρ cs) st = (lowerHavingClauses cs st).mapErr (CErr.rename ρ)) := by
+  have hb := mapErr_binop ρ
+  have hu := mapErr_unop ρ
+  have hc := lowerCall_case ρ hρ
+  have hca := lowerCallAggregate_rename ρ hρ
+  apply PExpr.induct3
+  case value => intro l v st; rw [PExpr.renameCalls, lowerHaving]; rfl
+  case column => intro l n st; rw [PExpr.renameCalls, lowerHaving]; rfl
+  case wildcard => intro l st; rw [PExpr.renameCalls, lowerHaving]; rfl
+  case tuple => intro l vs _ st; rw [PExpr.renameCalls, lowerHaving, lowerHaving]; rfl
+  case binop =>
+    intro l o a b iha ihb st
+    rw [PExpr.renameCalls, lowerHaving, lowerHaving, iha]
+    cases lowerHaving a st with
+    | ok r => obtain ⟨a', st1⟩ := r; simp only [LRes.mapErr]; rw [ihb]
+              cases lowerHaving b st1 with
+              | ok r2 => obtain ⟨b', st2⟩ := r2; simp only [LRes.mapErr]
+                         have := hb l o a' b'
+                         cases hlb : lowerBinop l o a' b' <;> simp_all [LRes.mapErr]
+              | err e => simp [LRes.mapErr]
+              | panic s => simp [LRes.mapErr]
+    | err e => simp [LRes.mapErr]
+    | panic s => simp [LRes.mapErr]
+  case boolop =>
+    intro l o a b iha ihb st
+    rw [PExpr.renameCalls, lowerHaving, lowerHaving, iha]
+    cases lowerHaving a st with
+    | ok r => obtain ⟨a', st1⟩ := r; simp only [LRes.mapErr]; rw [ihb]
+              cases lowerHaving b st1 with
+              | ok r2 => obtain ⟨b', st2⟩ := r2; simp [LRes.mapErr]
+              | err e => simp [LRes.mapErr]
+              | panic s => simp [LRes.mapErr]
+    | err e => simp [LRes.mapErr]
+    | panic s => simp [LRes.mapErr]
+  case nullcmp =>
+    intro l o a b iha ihb st
+    rw [PExpr.renameCalls, lowerHaving, lowerHaving, iha]
+    cases lowerHaving a st with
+    | ok r => obtain ⟨a', st1⟩ := r; simp only [LRes.mapErr]; rw [ihb]
+              cases lowerHaving b st1 with
+              | ok r2 => obtain ⟨b', st2⟩ := r2; simp [LRes.mapErr]
+              | err e => simp [LRes.mapErr]
+              | panic s => simp [LRes.mapErr]
+    | err e => simp [LRes.mapErr]
+    | panic s => simp [LRes.mapErr]
+  case index =>
+    intro l a b iha ihb st
+    rw [PExpr.renameCalls, lowerHaving, lowerHaving, iha]
+    cases lowerHaving a st with
+    | ok r => obtain ⟨a', st1⟩ := r; simp only [LRes.mapErr]; rw [ihb]
+              cases lowerHaving b st1 with
+              | ok r2 => obtain ⟨b', st2⟩ := r2; simp [LRes.mapErr]
+              | err e => simp [LRes.mapErr]
+              | panic s => simp [LRes.mapErr]
+    | err e => simp [LRes.mapErr]
+    | panic s => simp [LRes.mapErr]
+  case unop =>
+    intro l o a iha st
+    rw [PExpr.renameCalls, lowerHaving, lowerHaving, iha]
+    cases lowerHaving a st with
+    | ok r => obtain ⟨a', st1⟩ := r; simp only [LRes.mapErr]
+              have := hu l o a'
+              cases hlu : lowerUnop l o a' <;> simp_all [LRes.mapErr]
+    | err e => simp [LRes.mapErr]
+    | panic s => simp [LRes.mapErr]
+  case invert =>
+    intro l a iha st
+    rw [PExpr.renameCalls, lowerHaving, lowerHaving, iha]
+    cases lowerHaving a st with
+    | ok r => obtain ⟨a', st1⟩ := r; simp [LRes.mapErr]
+    | err e => simp [LRes.mapErr]
+    | panic s => simp [LRes.mapErr]
+  case cast =>
+    intro l a ty iha st
+    rw [PExpr.renameCalls, lowerHaving, lowerHaving, iha]
+    cases lowerHaving a st with
+    | ok r => obtain ⟨a', st1⟩ := r; simp [LRes.mapErr]
+    | err e => simp [LRes.mapErr]
+    | panic s => simp [LRes.mapErr]
+  case inList =>
+    intro l n a vs iha ihvs st
+    rw [PExpr.renameCalls, lowerHaving, lowerHaving, iha]
+    cases lowerHaving a st with
+    | ok r => obtain ⟨a', st1⟩ := r; simp only [LRes.mapErr]; rw [ihvs]
+              cases lowerHavingList vs st1 with
+              | ok r2 => obtain ⟨b', st2⟩ := r2; simp [LRes.mapErr]
+              | err e => simp [LRes.mapErr]
+              | panic s => simp [LRes.mapErr]
+    | err e => simp [LRes.mapErr]
+    | panic s => simp [LRes.mapErr]
+  case call =>
+    intro l n args d ihargs st
+    rw [PExpr.renameCalls, lowerHaving, lowerHaving, hca]
+    cases hagg : lowerCallAggregate l n args d 0 with
+    | ok r => obtain ⟨nm, k⟩ := r; simp [LRes.mapErr]
+    | panic s => simp [LRes.mapErr]
+    | err e =>
+      simp only [LRes.mapErr]
+      have hk : (CErr.rename ρ e).kind = .undefinedAggregate ↔ e.kind = .undefinedAggregate := by
+        unfold CErr.rename; cases hke : e.kind <;> simp_all
+      by_cases hua : e.kind = .undefinedAggregate
+      · have hua' : (CErr.rename ρ e).kind = .undefinedAggregate := hk.mpr hua
+        simp only [hua, hua', ne_eq, not_true_eq_false, if_false]
+        rw [ihargs]
+        cases lowerHavingList args st with
+        | ok r2 => obtain ⟨b', st2⟩ := r2; simp only [LRes.mapErr]
+                   have := hc l n b'
+                   cases hlc : lowerCall l n b' <;> simp_all [LRes.mapErr]
+        | err e => simp [LRes.mapErr]
+        | panic s => simp [LRes.mapErr]
+      · have hua' : ¬(CErr.rename ρ e).kind = .undefinedAggregate := fun h => hua (hk.mp h)
+        simp [hua, hua', LRes.mapErr]
+  case case =>
+    intro l cs els ihcs ihels st
+    rw [PExpr.renameCalls, lowerHaving, lowerHaving, ihcs]
+    cases lowerHavingClauses cs st with
+    | ok r => obtain ⟨a', st1⟩ := r; simp only [LRes.mapErr]; rw [ihels]
+              cases lowerHaving els st1 with
+              | ok r2 => obtain ⟨b', st2⟩ := r2; simp [LRes.mapErr]
+              | err e => simp [LRes.mapErr]
+              | panic s => simp [LRes.mapErr]
+    | err e => simp [LRes.mapErr]
+    | panic s => simp [LRes.mapErr]
+  case nil => intro st; rw [PExpr.renameCallsList, lowerHavingList]; rfl
+  case cons =>
+    intro x xs ihx ihxs st
+    rw [PExpr.renameCallsList, lowerHavingList, lowerHavingList, ihx]
+    cases lowerHaving x st with
+    | ok r => obtain ⟨a', st1⟩ := r; simp only [LRes.mapErr]; rw [ihxs]
+              cases lowerHavingList xs st1 with
+              | ok r2 => obtain ⟨b', st2⟩ := r2; simp [LRes.mapErr]
+              | err e => simp [LRes.mapErr]
+              | panic s => simp [LRes.mapErr]
+    | err e => simp [LRes.mapErr]
+    | panic s => simp [LRes.mapErr]
+  case cnil => intro st; rw [PExpr.renameCallsClauses, lowerHavingClauses]; rfl
+  case ccons =>
+    intro c r xs ihc ihr ihxs st
+    rw [PExpr.renameCallsClauses, lowerHavingClauses, lowerHavingClauses, ihc]
+    cases lowerHaving c st with
+    | ok r1 => obtain ⟨a', st1⟩ := r1; simp only [LRes.mapErr]; rw [ihr]
+               cases lowerHaving r st1 with
+               | ok r2 => obtain ⟨b', st2⟩ := r2; simp only [LRes.mapErr]; rw [ihxs]
+                          cases lowerHavingClauses xs st2 with
+                          | ok r3 => obtain ⟨c', st3⟩ := r3; simp [LRes.mapErr]
+                          | err e => simp [LRes.mapErr]
+                          | panic s => simp [LRes.mapErr]
+               | err e => simp [LRes.mapErr]
+               | panic s => simp [LRes.mapErr]
+    | err e => simp [LRes.mapErr]
+    | panic s => simp [LRes.mapErr]
+
+
+end Lower
+
+/-- respell every call name of a SELECT (projections, WHERE, GROUP BY, HAVING) -/
+def PSelect.renameCalls (ρ : List Char → List Char) (q : PSelect) : PSelect :=
+  { q with projections := q.projections.map (fun p => (p.1, p.2.renameCalls ρ)),
+           filter := q.filter.map (PExpr.renameCalls ρ),
+           groupBy := q.groupBy.map (PExpr.renameCallsList ρ),
+           having := q.having.map (PExpr.renameCalls ρ) }
+
+def POp.renameCalls (ρ : List Char → List Char) : POp → POp
+  | .select q => .select (q.renameCalls ρ)
+  | t => t
+
+namespace Lower
+
+theorem lowerOpt_rename (ρ) (hρ : CaseOnly ρ) (o : Option PExpr) :
+    lowerOpt lowerPlain (o.map (PExpr.renameCalls ρ)) = (lowerOpt lowerPlain o).mapErr (CErr.rename ρ) := by
+  cases o with
+  | none => rfl
+  | some e => simp only [Option.map_some, lowerOpt, (lowerPlain_case ρ hρ).1]; cases lowerPlain e <;> rfl
+
+theorem lowerHavingOpt_rename (ρ) (hρ : CaseOnly ρ) (o : Option PExpr) :
+    lowerHavingOpt (o.map (PExpr.renameCalls ρ)) = (lowerHavingOpt o).mapErr (CErr.rename ρ) := by
+  cases o with
+  | none => rfl
+  | some e => simp only [Option.map_some, lowerHavingOpt, (lowerHaving_rename ρ hρ).1]; cases lowerHaving e {} <;> rfl
+
+theorem lowerGroupBy_rename (ρ) (hρ : CaseOnly ρ) (o : Option (List PExpr)) :
+    lowerGroupBy (o.map (PExpr.renameCallsList ρ)) = (lowerGroupBy o).mapErr (CErr.rename ρ) := by
+  cases o with
+  | none => rfl
+  | some es => simp only [Option.map_some, lowerGroupBy, (lowerPlain_case ρ hρ).2.1]; cases lowerPlainList es <;> rfl
+
+theorem lowerProjections_rename (ρ) (hρ : CaseOnly ρ) : ∀ (ps : List (Option (List Char) × PExpr)) (i : Nat),
+    lowerProjections (ps.map (fun p => (p.1, p.2.renameCalls ρ))) i = (lowerProjections ps i).mapErr (CErr.rename ρ) := by
+  intro ps
+  induction ps with
+  | nil => intro i; rfl
+  | cons p rest ih =>
+    intro i
+    obtain ⟨name, tree⟩ := p
+    simp only [List.map_cons, lowerProjections, (lowerPlain_case ρ hρ).1, ih]
+    cases lowerPlain tree with
+    | ok e => simp only [LRes.mapErr]; cases lowerProjections rest (i + 1) <;> rfl
+    | err e => rfl
+    | panic s => rfl
+
+theorem lowerItems_rename (ρ) (hρ : CaseOnly ρ) : ∀ (ps : List (Option (List Char) × PExpr)) (i : Nat),
+    lowerItems (ps.map (fun p => (p.1, p.2.renameCalls ρ))) i = (lowerItems ps i).mapErr (CErr.rename ρ) := by
+  intro ps
+  induction ps with
+  | nil => intro i; rfl
+  | cons p rest ih =>
+    intro i
+    obtain ⟨name, tree⟩ := p
+    simp only [List.map_cons, lowerItems, lowerAggregate_rename ρ hρ, ih]
+    cases lowerAggregate tree i with
+    | ok r => obtain ⟨dn, k, tr⟩ := r; simp only [LRes.mapErr]; cases lowerItems rest (i + 1) <;> rfl
+    | err e => rfl
+    | panic s => rfl
+
+theorem mapErr_join (ρ) (loc f j) : (lowerJoin loc f j).mapErr (CErr.rename ρ) = lowerJoin loc f j := by
+  unfold lowerJoin
+  repeat' split
+  all_goals simp [LRes.mapErr, CErr.rename]
+
+theorem anyAggregates_rename (ρ) (hρ : CaseOnly ρ) (ps : List (Option (List Char) × PExpr)) :
+    anyAggregates (ps.map (fun p => (p.1, p.2.renameCalls ρ))) = anyAggregates ps := by
+  unfold anyAggregates
+  simp [List.any_map, Function.comp_def, (countAggregates_rename ρ hρ).1]
+
+theorem lowerSelect_rename (ρ) (hρ : CaseOnly ρ) (q : PSelect) :
+    lowerSelect (q.renameCalls ρ) = (lowerSelect q).mapErr (CErr.rename ρ) := by
+  have hj := mapErr_join ρ q.loc q.fromTable q.join
+  unfold lowerSelect
+  simp only [PSelect.renameCalls, lowerProjections_rename ρ hρ, lowerOpt_rename ρ hρ]
+  cases lowerProjections q.projections 0 with
+  | ok ps =>
+    simp only [LRes.mapErr]
+    cases lowerOpt lowerPlain q.filter with
+    | ok f => simp only [LRes.mapErr]; cases hlj : lowerJoin q.loc q.fromTable q.join <;> simp_all [LRes.mapErr]
+    | err e => rfl
+    | panic s => rfl
+  | err e => rfl
+  | panic s => rfl
+
+theorem lowerAggregateStmt_rename (ρ) (hρ : CaseOnly ρ) (q : PSelect) :
+    lowerAggregateStmt (q.renameCalls ρ) = (lowerAggregateStmt q).mapErr (CErr.rename ρ) := by
+  have hj := mapErr_join ρ q.loc q.fromTable q.join
+  unfold lowerAggregateStmt
+  simp only [PSelect.renameCalls, lowerItems_rename ρ hρ, lowerOpt_rename ρ hρ, lowerHavingOpt_rename ρ hρ,
+    lowerGroupBy_rename ρ hρ]
+  cases lowerItems q.projections 0 with
+  | ok items =>
+    simp only [LRes.mapErr]
+    cases lowerOpt lowerPlain q.filter with
+    | ok f =>
+      simp only [LRes.mapErr]
+      cases lowerHavingOpt q.having with
+      | ok h =>
+        simp only [LRes.mapErr]
+        cases hlj : lowerJoin q.loc q.fromTable q.join with
+        | ok j => simp only [LRes.mapErr]; cases lowerGroupBy q.groupBy <;> rfl
+        | err e => simp_all [LRes.mapErr]
+        | panic s => rfl
+      | err e => rfl
+      | panic s => rfl
+    | err e => rfl
+    | panic s => rfl
+  | err e => rfl
+  | panic s => rfl
+
+theorem lowerCreate_err (rv : List Char → Bool) (c : PCreate) (e : CErr) (h : lowerCreate rv c = .err e) :
+    e = ⟨c.loc, .invalidPattern⟩ := by
+  unfold lowerCreate at h
+  cases hc : lowerColumns c.columns with
+  | ok cols =>
+    rw [hc] at h
+    by_cases hv : (c.patterns.all fun p => rv p.2.1) = true
+    · simp [hv] at h
+    · simp [hv] at h; exact h.symm
+  | err e' => exact absurd hc (lowerColumns_noErr _ _)
+  | panic s => rw [hc] at h; simp at h
+
+theorem mapErr_create (ρ) (rv : List Char → Bool) (c : PCreate) :
+    (lowerCreate rv c).mapErr (CErr.rename ρ) = lowerCreate rv c := by
+  cases h : lowerCreate rv c with
+  | ok s => rfl
+  | err e => rw [lowerCreate_err rv c e h]; rfl
+  | panic s => rfl
+
+/-- **letter case of function and aggregate names does not matter to a whole statement**: respelling every call name
+of a SELECT (projections, WHERE, GROUP BY, HAVING) by a change of letter case gives the same lowered statement; an
+error differs only in the spelling carried by `UndefinedFunction` -/
+theorem lowerStatement_rename (ρ : List Char → List Char) (hρ : CaseOnly ρ) (rv : List Char → Bool) (t : POp) :
+    lowerStatement rv (t.renameCalls ρ) = (lowerStatement rv t).mapErr (CErr.rename ρ) := by
+  cases t with
+  | select q =>
+    simp only [POp.renameCalls, lowerStatement]
+    have hg : (q.renameCalls ρ).groupBy.isSome = q.groupBy.isSome := by simp [PSelect.renameCalls]
+    have hh : (q.renameCalls ρ).having.isSome = q.having.isSome := by simp [PSelect.renameCalls]
+    have ha : anyAggregates (q.renameCalls ρ).projections = anyAggregates q.projections := anyAggregates_rename ρ hρ _
+    have hl : (q.renameCalls ρ).loc = q.loc := rfl
+    simp only [hg, hh, ha, hl, lowerSelect_rename ρ hρ, lowerAggregateStmt_rename ρ hρ]
+    repeat' split
+    all_goals first | rfl | simp [LRes.mapErr, CErr.rename]
+  | createTable c =>
+    simp only [POp.renameCalls, lowerStatement]
+    exact (mapErr_create ρ rv c).symm
+  | multiple cs =>
+    simp only [POp.renameCalls, lowerStatement]
+    have : ∀ cs : List PCreate, (lowerCreates rv cs).mapErr (CErr.rename ρ) = lowerCreates rv cs := by
+      intro cs
+      induction cs with
+      | nil => rfl
+      | cons c rest ih =>
+        rw [lowerCreates]
+        have hc1 := mapErr_create ρ rv c
+        cases hlc : lowerCreate rv c with
+        | ok s => simp only []; cases hlr : lowerCreates rv rest <;> simp_all [LRes.mapErr]
+        | err e => simp_all [LRes.mapErr]
+        | panic s => rfl
+    have h := this cs
+    cases hl : lowerCreates rv cs <;> simp_all [LRes.mapErr]
+
+end Lower
+end Sqlgrep
